@@ -58,16 +58,15 @@ fn fail(v: Violation) -> ! {
 fn run_once(spec: &RunSpec, c18: bool) {
     ITER.fetch_add(1, Ordering::Relaxed);
     let mut shared: Vec<Box<dyn Slot>> = vec![];
-    let mut refs: Vec<Box<dyn Slot>> = vec![];
     for cfg in &spec.slots {
-        match (build_slot(cfg), build_slot(cfg)) {
-            (Ok(a), Ok(b)) => {
-                shared.push(a);
-                refs.push(b);
-            }
+        match build_slot(cfg) {
+            Ok(a) => shared.push(a),
             _ => return, // unbuildable configuration: nothing to explore
         }
     }
+    // reference: every distinct operation once, alone, on an instance of its own (an operation that
+    // panics may leave an instrumented lock of ITS instance behind: shuttle's primitives do not
+    // release cleanly while a task is unwinding, because for shuttle a panic ends the test)
     let mut distinct: Vec<(Op, Outcome)> = vec![];
     let mut table: Vec<Vec<Outcome>> = vec![];
     for t in &spec.threads {
@@ -77,7 +76,8 @@ fn run_once(spec: &RunSpec, c18: bool) {
             let out = match known {
                 Some(r) => r,
                 None => {
-                    let r = exec(&*refs[op.slot], op);
+                    let Ok(fresh) = build_slot(&spec.slots[op.slot]) else { return };
+                    let r = exec(&*fresh, op);
                     distinct.push((op.clone(), r.clone()));
                     r
                 }
@@ -86,18 +86,28 @@ fn run_once(spec: &RunSpec, c18: bool) {
         }
         table.push(row);
     }
-    drop(refs);
+    // Operations that panic (documented panics on bad buffers, planned stub panics, element faults)
+    // take no part in the concurrent phase: a caught panic under shuttle can leave a lock of the
+    // SHARED instance behind, and the other clients would then "deadlock" - an artefact of the
+    // scheduler, not of the crate. Panicking histories are engine A's (real locks, real unwinding).
+    let panics = |t: usize, i: usize| table[t][i].class == Class::Panic;
     // ---- concurrent phase -----------------------------------------------------------------
     let stamp = std::sync::atomic::AtomicUsize::new(0);
     let results: Vec<Vec<(usize, Outcome)>> = shuttle::thread::scope(|s| {
         let hs: Vec<_> = spec
             .threads
             .iter()
-            .map(|th| {
-                let (shared, stamp) = (&shared, &stamp);
+            .enumerate()
+            .map(|(tix, th)| {
+                let (shared, stamp, table) = (&shared, &stamp, &table);
                 s.spawn(move || {
                     let mut v = Vec::with_capacity(th.ops.len());
-                    for op in &th.ops {
+                    for (i, op) in th.ops.iter().enumerate() {
+                        if table[tix][i].class == Class::Panic {
+                            // placeholder: compared with itself below
+                            v.push((stamp.fetch_add(1, Ordering::Relaxed), table[tix][i].clone()));
+                            continue;
+                        }
                         // a scheduling point between operations (the unchanged crate has none of its own)
                         shuttle::thread::sleep(std::time::Duration::ZERO);
                         let out = exec(&*shared[op.slot], op);
@@ -152,6 +162,9 @@ fn run_once(spec: &RunSpec, c18: bool) {
     // ---- epilogue: after the storm the shared instances answer as pristine ones ----------------
     for (t, th) in spec.threads.iter().enumerate() {
         for (i, op) in th.ops.iter().enumerate().take(2) {
+            if panics(t, i) {
+                continue;
+            }
             let out = exec(&*shared[op.slot], op);
             COMPARED.fetch_add(1, Ordering::Relaxed);
             if op.elem_fault == 0 && !out.same_answer(&table[t][i]) {
